@@ -211,7 +211,9 @@ CHECKS = {
  "C23": dict(text="Partial: the property is FALSE of the code (open finding staleLeaseWrite). Same model as C22. Theorems, for EVERY schedule (any cluster size, threshold, topics, any sequence of spawns, task steps, per-node "
              "applies and lease syncs): C23_partial - a write made while the node's lease set is current (nothing applied on the node since its last lease refresh, key still leased) goes to a segment the node's applied "
              "metadata has open and assigns to that node (invariant: metadata has one entry per topic; a lease set refreshed at the current applied index is exactly what the metadata prescribes); "
-             "C23_violation_needs_outdated_leases (contrapositive: every violating write happened in the window between a lease refresh and the write in which the node applied a log entry); C23_counterexample (kernel "
+             "C23_violation_needs_outdated_leases (contrapositive: every violating write happened in the window between a lease refresh and the write in which the node applied a log entry); "
+             "C23_holds_when_applies_are_quiet (the property itself, every write owned, for every schedule that applies a log entry on a node only while no append is in flight on that node - any number of tasks, "
+             "interleavings, lease syncs, applies on other nodes; invariant FlightInv); C23_counterexample (kernel "
              "evaluation): task 1 passes the lease check, task 2's rollover is applied on the node, task 1 writes into the sealed segment - replayed on the real code on every run. Correspondence as for C22; oracle on "
              "every `written` event: the executing node's applied metadata at that moment.",
              note=BASE_NOTE + "Raft is assumed (one ordered log, node 1 leader); tokio and octopii are stand-ins; a task switches only at the named points, so interleavings inside bucket.rs between two points are not explored "
